@@ -17,7 +17,8 @@ RULE = ('explicit-state search over registration histories on the real classes: 
         'objects and inner lists). non-trivial = history contains at least one registration')
 ASSUMPTIONS = ['the shipped classes\' registries are restored from a deep snapshot after every history and the restoration is verified by digest',
                'module-level helpers follow their documented fan-out: Loader=None -> Loader, FullLoader, UnsafeLoader; Dumper default yaml.Dumper',
-               'probing is behavioural (load / dump / compose), tables are read only for the state hash']
+               'probing is behavioural (load / dump / compose), tables are read only for the state hash',
+               'states are merged only when implementation state AND model state coincide (product automaton)']
 
 KINDS = ('yaml_constructors', 'yaml_multi_constructors', 'yaml_representers', 'yaml_multi_representers', 'yaml_implicit_resolvers', 'yaml_path_resolvers')
 LOADER_ROOTS = ['SafeLoader', 'FullLoader', 'Loader', 'BaseLoader', 'CSafeLoader']
@@ -456,7 +457,19 @@ def canon_state(world):
                 else:
                     items.append((repr(key), getattr(vv, 'marker', getattr(vv, '__qualname__', repr(vv)))))
             out.append((oid(t), tuple(sorted(map(repr, items)))))
-    return hashlib.sha1(repr((sorted(world.cls), out)).encode()).hexdigest()
+    # the search runs on the product of implementation and model: two histories are merged only if BOTH agree (an
+    # implementation that fails to create a table would otherwise look like an already visited state and be pruned)
+    mod = []
+    for c in classes:
+        for k in KINDS:
+            t = world.model.own.get(c, {}).get(k)
+            if t is None:
+                mod.append(None)
+            else:
+                mod.append(tuple(sorted(repr((kk if isinstance(kk, (str, type(None))) else getattr(kk, '__name__', repr(kk)),
+                                              [(tg, rx.pattern) for tg, rx in vv] if isinstance(vv, list) else
+                                              (vv[1].__name__ if isinstance(vv, tuple) else getattr(vv, 'marker', getattr(vv, '__qualname__', repr(vv)))))) for kk, vv in t.items())))
+    return hashlib.sha1(repr((sorted(world.cls), out, mod)).encode()).hexdigest()
 
 
 def check_history(T, root, hist, seen, depth_left, evs):
